@@ -507,7 +507,14 @@ func (aof *AppendableFile) readAt(bs []byte, off int64) (n int, err error) {
 	var boff int
 
 	if off < aof.fileOffset {
-		n, err = aof.f.ReadAt(bs, aof.fileBaseOffset+off)
+		// only the bytes below fileOffset are read from the file: after a rewind the file may still
+		// hold discarded bytes beyond it, what follows fileOffset lives in the write buffer
+		fbs := bs
+		if int64(len(fbs)) > aof.fileOffset-off {
+			fbs = bs[:aof.fileOffset-off]
+		}
+
+		n, err = aof.f.ReadAt(fbs, aof.fileBaseOffset+off)
 	} else {
 		boff = int(off - aof.fileOffset)
 	}
